@@ -5,7 +5,7 @@ import ast
 import z3
 
 from .ops import truthy, snapshot, T, Unsupported
-from .values import NONE, VByteArray, VDict, VExc, VList, VObj, VSet
+from .values import NONE, VBuiltin, VByteArray, VClass, VDict, VExc, VFunc, VList, VModule, VObj, VOpt, VRegex, VSet
 from .symex import Env, PyRaise
 
 
@@ -22,6 +22,8 @@ def havoc_lvalue(interp, expr_src, env, tag="havoc"):
         return
     if isinstance(node, ast.Attribute):
         obj = spec.eval(node.value, env)
+        if isinstance(obj, VOpt):
+            obj = obj.val
         if not isinstance(obj, VObj):
             raise Unsupported(f"havoc of attribute on {obj!r}")
         cur = obj.fields.get(node.attr)
@@ -61,6 +63,43 @@ def _havoc_inplace(interp, cur, tag):
     if isinstance(cur, VObj):
         raise Unsupported("havoc of whole object; list its fields in modifies")
     return False
+
+
+def reachable_lvalues(vals, skip=()):
+    """lvalue paths ('self.buffer', 'b', 'self._stream.pos') of every mutable piece of state reachable from the
+    named values through object fields"""
+    out = []
+    seen = set()
+
+    def walk(path, v):
+        if isinstance(v, VOpt):
+            v = v.val
+        if isinstance(v, VObj):
+            if id(v) in seen:
+                return
+            seen.add(id(v))
+            for f, x in v.fields.items():
+                if not f.startswith("__"):
+                    walk(f"{path}.{f}", x)
+            return
+        out.append((path, v))
+    for nm, v in vals.items():
+        if nm in skip or nm.startswith("__"):
+            continue
+        if isinstance(v, VOpt):
+            v = v.val
+        if isinstance(v, VObj):
+            walk(nm, v)
+        elif isinstance(v, (VList, VDict, VSet, VByteArray)):
+            out.append((nm, v))
+    return out
+
+
+def havoc_reachable(interp, vals, env):
+    for path, v in reachable_lvalues(vals):
+        if isinstance(v, (VFunc, VBuiltin, VClass, VRegex, VModule)):
+            continue   # code objects: not state
+        havoc_lvalue(interp, path, env, tag="m")
 
 
 def apply_contract(interp, c, fv, args, kwargs, node):
@@ -103,8 +142,15 @@ def apply_contract(interp, c, fv, args, kwargs, node):
     # which outcome happens is the callee's choice; the condition attached to a raise is a
     # two-state predicate (old() = state before the call) assumed after the callee's effects
     d = ctx.choose([T()] * len(outcomes), what=f"call:{c.key}")
-    for lv in (c.modifies if d == 0 else c.raise_modifies):
-        havoc_lvalue(interp, lv, env, tag="m")
+    if c.modifies_declared or c.trusted or c.key.startswith("model:"):
+        for lv in (c.modifies if d == 0 else c.raise_modifies):
+            havoc_lvalue(interp, lv, env, tag="m")
+    else:
+        # a verified contract without a declared frame: the callee may have changed anything it can reach
+        import os as _os
+        if _os.environ.get("PYVC_LOG_UNDECLARED"):
+            print(f"UNDECLARED-FRAME callee={c.key} caller={interp.current_target}", flush=True)
+        havoc_reachable(interp, vars_, env)
     # bind_params / names may have been rebound by havoc of plain names: not visible to caller (python semantics)
     if d == 0:
         result = NONE
